@@ -406,7 +406,7 @@ pub fn run(ctx: &Ctx) -> i32 {
         Finish {
             ctx,
             level: "exploration",
-            rule: "one port brought to Master (announce receipt timeout), E2E or P2P, random domain/sdoId/minor version; histories of <= 40 ops: sync timer, return of any outstanding Sync context with a transmit time over the whole 80-bit range (incl. sub-ns fractions, second/nanosecond carries, >= 2^64 ns), Delay_Req / Pdelay_Req built by the reference codec with arbitrary correction (|c| < 2^62), identity, sequence id, flags and receive time, return of Pdelay_Resp contexts, announce timer, delay timer; plus two 70 000-emission runs per type across the sequence wrap. Part daemon: the master port of the real statime daemon (two-port boundary clock in a private network namespace, its clock = the system clock) watched for 0.7-1.8 s while generated Delay_Req frames (sequence ids, correction fields, requesters) are sent to it: Follow_Up pairs with its Sync and carries its transmit time (within -50..+1 ms of the Sync's arrival at the harness), Delay_Resp echoes requester and id and its timestamp + correction - request correction is the time the request was sent (-1..+50 ms), every request is answered exactly once, Announce and Sync ids increase by one, identity/domain/sdoId/version/size of every frame. Non-trivial = a timestamped exchange with non-zero sub-nanosecond part; distinct by op list.",
+            rule: "one port brought to Master (announce receipt timeout), E2E or P2P, random domain/sdoId/minor version; histories of <= 40 ops: sync timer, return of any outstanding Sync context with a transmit time over the whole 80-bit range (incl. sub-ns fractions, second/nanosecond carries, >= 2^64 ns), Delay_Req / Pdelay_Req built by the reference codec with arbitrary correction (|c| < 2^62), identity, sequence id, flags and receive time, return of Pdelay_Resp contexts, announce timer, delay timer; plus two 70 000-emission runs per type across the sequence wrap. Part daemon: the master port of the real statime daemon (two-port boundary clock in a private network namespace, its clock = the system clock) watched for 0.7-1.8 s while generated Delay_Req frames (sequence ids, correction fields, requesters) are sent to it: Follow_Up pairs with its Sync and carries its transmit time (within -20..+1 ms of the Sync's arrival, kernel receive timestamp; also with the port's egress plugged by a token bucket so that transmit timestamps come late or not at all), Delay_Resp echoes requester and id and its timestamp + correction - request correction is the time the request was sent (-1..+20 ms), every Delay_Req and every Pdelay_Req of a 100-600/s stream is answered exactly once (response and follow-up), Announce and Sync ids increase by one, identity/domain/sdoId/version/size of every frame. Non-trivial = a timestamped exchange with non-zero sub-nanosecond part; distinct by op list.",
             assumptions: vec!["frames decoded by the independent reference codec".into(), "|correctionField| >= 2^62 in requests belongs to C03".into()],
             min_nontrivial: 100,
         },
